@@ -506,7 +506,7 @@ func desc(v ssa.Value, depth int) string {
 		}
 		return x.Value.ExactString()
 	case *ssa.Global:
-		return x.Name()
+		return GN(x)
 	case *ssa.Function:
 		return "func " + FStr(x)
 	case *ssa.Builtin:
